@@ -14,7 +14,15 @@ for p in props:
     if not have:
         na.append({"property_id": pid, "reason": texts.get("_na", {}).get(pid, "check under construction in this revision (Lean model + correspondence not yet integrated); not claimed yet")})
         continue
-    t = texts[pid]
+    t = dict(texts[pid])
+    # theorem counts are taken from the sources, not from the hand-written text
+    import re, sys
+    sys.path.insert(0, V)
+    from harness import common
+    names = common.theorem_names(pid)
+    comp = [m.split(".")[-1] for m in common.prop_modules(pid) if m != f"OQ.Props.{pid}"]
+    t["text"] = re.sub(r"^\d+ Lean theorems", f"{len(names)} Lean theorems (OQ/Props/{pid}.lean"
+                       + (" with the companion files " + ", ".join(comp) if comp else "") + ")", t["text"], count=1)
     checks.append({
         "property_id": pid, "quick_cmd": f"./check {pid} --tier quick", "thorough_cmd": f"./check {pid} --tier thorough",
         "evidence_file": f"evidence/{pid}.json", "replay_cmd_template": f"./check {pid} --replay {{path}}",
